@@ -274,5 +274,7 @@ def run(chk):
                        "compared with the model for that design's domains. "
                        "non-trivial = some register, row or comb output changes at some event")
     chk.assumptions += ["memories in C03's designs have one write port and non-transparent read ports (granularity, transparency, several "
-                        "write ports, out-of-range addresses are C11's subject); designs with memories use one-bit inserter controls",
+                        "write ports, out-of-range addresses are C11's subject); designs with memories use one-bit inserter controls: with a wider "
+                        "control EnableInserter enables statements iff control == 1 but a write port iff control != 0, and a synchronous read "
+                        "port then fails an assertion in prepare() (prelim/repro/c03_enable_inserter_wide_control_memory.py; reported, not exercised)",
                         "derived clocks (a clock driven by logic) are not generated"]
